@@ -14,7 +14,11 @@ from ..core import run_section
 
 MODULE = 'KdVerif.Props.C15'
 NAMESPACE = 'KdVerif.C15'
-TRUSTED = ['bisect.bisect (C implementation) modelled by Model/Callstacks.bisect (lo/hi loop on an arbitrary list), '
+TRUSTED = ['Model/Callstacks.insertImage / lookupAll are tied to the source text of insert_image / the frame loop of '
+           'feed_generator by translation (tools/gen_pyir.py -> Gen/PyIRCs, source_is_expected_ir, '
+           'insert_image_ir_eq_model, frame_loop_ir_eq_model); trusted for that: the translator and the interpreter '
+           'Model/PyIRCs (section callstacks-ir tests them against CPython)',
+           'bisect.bisect (C implementation) modelled by Model/Callstacks.bisect (lo/hi loop on an arbitrary list), '
            'tied by the correspondence section `bisect`',
            'list.insert, `in`, sorted(key=) modelled by pyInsert / List membership / a stable insertion sort',
            'uuid.UUID(bytes=…) treated as the identity on 16 bytes',
@@ -506,9 +510,91 @@ def kind_of(ans):
     return 'attributed-frames' if ':' in ans else 'only-unattributed-frames'
 
 
+# ------------------------------------------------------------------------------------------------ translation tie
+
+def gen_ir_case(rng):
+    """Announcements (address, 1-2 uuid bytes) over a small pool with repeats / adjacent / extreme addresses, and frames
+    below / at / between / above them."""
+    base = rng.choice([0, 1, 0x1000, 0x100000000, rng.randrange(1 << 40), M64 - 8])
+    pool = sorted({min(base + d, M64) for d in (0, 1, 2, 0x10, 0x1000)} | {rng.randrange(1 << 64), 0, M64})
+    anns = [[rng.choice(pool), bytes(rng.randrange(256) for _ in range(rng.choice([1, 2]))).hex()]
+            for _ in range(rng.randrange(0, 9))]
+    frames = []
+    for _ in range(rng.randrange(0, 10)):
+        a = rng.choice(pool)
+        frames.append(max(0, min(M64, a + rng.choice([-1, 0, 0, 1, 7, rng.randrange(1 << 20)]))))
+    return {'anns': anns, 'frames': frames}
+
+
+def line_ir(case):
+    return 'csir %s %s' % (','.join('%d:%s' % (a, u) for a, u in case['anns']) or '-',
+                           ','.join(str(f) for f in case['frames']) or '-')
+
+
+def impl_ir(case):
+    """The real CallstacksParser through its two public methods only."""
+    import types
+    from .. import impl  # noqa: F401
+    from pykdebugparser.callstacks_parser import CallstacksParser
+    from pykdebugparser.trace_handlers.perf import PerfEvent
+    p = CallstacksParser([], [])
+    for a, u in case['anns']:
+        r = p.insert_image(a, bytes.fromhex(u))
+        if r is not None:
+            return 'err insert_image-returned-a-value'
+    ev = PerfEvent(ktraces=[types.SimpleNamespace(timestamp=7, tid=9)], sample_what=[], actionid=0,
+                   cs_frames=list(case['frames']))
+    out = list(p.feed_generator([ev]))
+    if len(out) != 1 or out[0].timestamp != 7 or out[0].tid != 9:
+        return 'err not-one-callstack'
+    fr = ','.join(str(f.address) if f.uuid is None and f.offset is None
+                  else '%d:%s:%d' % (f.address, f.uuid.hex(), f.offset) for f in out[0].frames)
+    return 'ok %s|%s|%s' % (','.join(str(a) for a in p.dyld_addresses), ','.join(u.hex() for u in p.dyld_uuids), fr)
+
+
+def oracle_ir(case, got):
+    """Directly from the announcements: the image of a frame is the first-announced identity of the greatest announced
+    address <= frame."""
+    first = {}
+    for a, u in case['anns']:
+        first.setdefault(a, u)
+    exp = []
+    for f in case['frames']:
+        below = [a for a in first if a <= f]
+        exp.append(str(f) if not below else '%d:%s:%d' % (f, first[max(below)], f - max(below)))
+    addrs = sorted(first)
+    want = 'ok %s|%s|%s' % (','.join(map(str, addrs)), ','.join(first[a] for a in addrs), ','.join(exp))
+    if got != want:
+        return ('callstack:wrong-image' if got.startswith('ok') else 'callstack:raises',
+                'announcements %s, frames %s: expected %s, got %s' % (case['anns'], case['frames'], want, got))
+    return None
+
+
+def translation_tie(rep):
+    ans = core.drive(['csircheck'])[0]
+    if ans == 'same':
+        rep.notes.append('translation tie: Gen/PyIRCs (from callstacks_parser.py) = Spec/PyIRCsExpected')
+        return True
+    rep.broken.append('theorem source_is_expected_ir: the IR that tools/gen_pyir.py translates from the source text of '
+                      'callstacks_parser.py (insert_image, frame loop of feed_generator) is not the one of '
+                      'Spec/PyIRCsExpected that insert_image_ir_eq_model / frame_loop_ir_eq_model are proved for (%s)' % ans)
+    return 'unsupported' not in ans
+
+
 def correspondence(rep, rng, tier):
     thorough = tier != 'quick'
     ctx()
+    if translation_tie(rep):
+        run_section(rep, 'callstacks-ir', [gen_ir_case(rng) for _ in range(20000 if thorough else 1500)],
+                    line_ir, impl_ir, oracle_ir, skip_fn=lambda m: m == 'unsupported',
+                    nontrivial_fn=lambda c, got: got.startswith('ok') and ':' in got.split('|')[-1],
+                    kind_fn=lambda c, got: 'attributed' if ':' in got.split('|')[-1] else 'unattributed',
+                    rule='the blocks GENERATED from callstacks_parser.py (Gen/PyIRCs: insert_image, frame loop) run by the '
+                         'interpreter of Model/PyIRCs (`csir`) vs. the real CallstacksParser.insert_image / feed_generator '
+                         'on a hand-made PerfEvent: announcements with repeated / adjacent / extreme addresses, frames '
+                         'below / at / above them; non-trivial = at least one attributed frame')
+    else:
+        rep.notes.append('section callstacks-ir skipped: the translation contains .unsupported nodes')
     run_section(rep, 'bisect', gen_bisect(rng, 60000 if thorough else 3000), line_bisect, impl_bisect, oracle_bisect,
                 nontrivial_fn=lambda c, got: len(c['l']) > 1,
                 kind_fn=lambda c, got: 'sorted' if all(a <= b for a, b in zip(c['l'], c['l'][1:])) else 'unsorted',
@@ -553,6 +639,7 @@ def replay(path):
         return 1
     sec, case = r['replay']['section'], r['replay']['case']
     line_fn, impl_fn, oracle_fn = {'bisect': (line_bisect, impl_bisect, oracle_bisect),
+                                   'callstacks-ir': (line_ir, impl_ir, oracle_ir),
                                    'streams': (line_stream, impl_stream, oracle_stream),
                                    'requests': (line_requests, impl_requests, oracle_requests)}[sec]
     try:
@@ -574,7 +661,16 @@ LEVEL_TEXT = ('Lean theorems over the model of CallstacksParser / handle_event /
               'all announcement sequences and all streams (insert_sorted, lookup_greatest_le, insert_order_independent, '
               'first_identity_kept, frames_spec, callstacks_spec); bisect is modelled as the lo/hi loop on arbitrary '
               'lists and proved to be the upper bound on sorted ones; the model is tied to the code by differential '
-              'runs through TracesParser + CallstacksParser and through PyKdebugParser.callstacks on v2 dumps.')
+              'runs through TracesParser + CallstacksParser and through PyKdebugParser.callstacks on v2 dumps.  '
+              'TRANSLATION TIE: the source text of insert_image and of the frame loop of feed_generator is translated on '
+              'every run (tools/gen_pyir.py, pure ast) into a deep embedding of the Python subset they use '
+              '(Model/PyIRCs, bisect as a primitive = the modelled bisect); source_is_expected_ir: the generated blocks '
+              'are those of Spec/PyIRCsExpected; insert_image_ir_eq_model / frame_loop_ir_eq_model: interpreted on ANY '
+              'pair of lists they are Callstacks.insertImage / lookupAll (same lists, same frames, same exceptions).')
 LEVEL_NOTE = ('Trusted: Lean kernel, correspondence harness, reflected SamplerAction enum; bisect/list.insert/sorted/'
-              'uuid.UUID are modelled, not verified. Windows come from the pairing model (C04).')
-TECHNIQUE = 'Lean 4 proof (invariant + refinement to a declarative attribution) + differential correspondence'
+              'uuid.UUID are modelled, not verified; for the translation tie the translator tools/gen_pyir.py and the '
+              'interpreter Model/PyIRCs (tested against CPython by the section callstacks-ir); the isinstance dispatch and '
+              'the yield of feed_generator, handle_event and the dyld handlers stay hand-modelled (tied by sections '
+              'streams / requests). Windows come from the pairing model (C04).')
+TECHNIQUE = ('Lean 4 proof (invariant + refinement to a declarative attribution) + translation validation of '
+             'insert_image / the frame loop + differential correspondence')
